@@ -438,7 +438,9 @@ def validate():
 
     import uberjob._execution.run_physical as rp
     import uberjob._transformations.caching as caching
-    from uberjob._execution.run_function_on_graph import run_function_on_graph as real_engine
+    import uberjob._execution.run_function_on_graph as _rfg_mod
+
+    real_engine = getattr(_rfg_mod, "_verif_real_engine", _rfg_mod.run_function_on_graph)  # (world.install_engine replaces the name everywhere)
     from uberjob.stores import JsonFileStore
 
     out = {"snap_vs_traceback": 0, "fresh_depth": 0, "engine_stub_vs_real": 0, "fstore_vs_filestore": 0, "failures": []}
